@@ -170,6 +170,12 @@ def bdeK (ids : List Nat) (j e : Nat) (del : List Nat) (fl : List (Nat × Nat ×
     | .ok => bdeLoop (ids.drop (j + 1)) (j + 1) (e :: del) fl
     | r => bdeLoop (ids.drop (j + 1)) (j + 1) del ((j, e, causeOf r) :: fl)
 
+/-- what `batch_update_nodes` does after `update_node`, its item `j`, answered `r` -/
+def bunK (us : List (Nat × Option Nat × Nat)) (j cnt : Nat) : Res → Prog :=
+  fun r => match r with
+    | .ok => bunLoop (us.drop (j + 1)) (cnt + 1)
+    | _ => bunLoop (us.drop (j + 1)) cnt
+
 inductive BK where
   /-- `batch_create_edges`, validation: before the check of the source (`sec = false`) or of the
       target (`sec = true`) of item `j` -/
@@ -181,18 +187,23 @@ inductive BK where
   | cnL (base : Nat) (items : List (Nat × Nat)) (start j : Nat)
   /-- `batch_delete_edges` inside item `j` -/
   | deL (base : Nat) (ids : List Nat) (j : Nat) (del : List Nat) (fl : List (Nat × Nat × Cause))
+  /-- `batch_update_nodes`, validation: before the `get_node` of item `j` -/
+  | unV (base : Nat) (us : List (Nat × Option Nat × Nat)) (j : Nat)
+  /-- `batch_update_nodes` inside `update_node` of item `j`; `cnt` updates applied so far -/
+  | unL (base : Nat) (us : List (Nat × Option Nat × Nat)) (j cnt : Nat)
 
 def BK.base : BK → Nat
-  | .ceV b .. | .ceL b .. | .cnA b .. | .cnL b .. | .deL b .. => b
+  | .ceV b .. | .ceL b .. | .cnA b .. | .cnL b .. | .deL b .. | .unV b .. | .unL b .. => b
 
 def BK.n : BK → Nat
   | .ceV _ items .. | .ceL _ items .. => items.length
   | .cnA _ items | .cnL _ items .. => items.length
   | .deL _ ids .. => ids.length
+  | .unV _ us .. | .unL _ us .. => us.length
 
 /-- the slot the thread is driving -/
 def BK.slot : BK → Option Nat
-  | .ceL b _ _ j | .cnL b _ _ j | .deL b _ j _ _ => some (b + j)
+  | .ceL b _ _ j | .cnL b _ _ j | .deL b _ j _ _ | .unL b _ j _ => some (b + j)
   | _ => none
 
 def slotProg (phs : List Ph) (u : Nat) (f : Res → Prog) : Prog :=
@@ -211,6 +222,8 @@ def BK.prog (phs : List Ph) : BK → Prog
   | .cnA _ items => bcnC items
   | .cnL base items start j => slotProg phs (base + j) (bcnK start items j)
   | .deL base ids j del fl => slotProg phs (base + j) (bdeK ids j (ids.getD j 0) del fl)
+  | .unV _ us j => bunValidate (us.drop j) j (bunLoop us 0)
+  | .unL base us j cnt => slotProg phs (base + j) (bunK us j cnt)
 
 def BK.ok (ne0 : Nat) (D : Nat → Prop) (phs : List Ph) : BK → Prop
   | .ceV base items j sec => j ≤ items.length ∧ (sec = true → j < items.length) ∧ items ≠ [] ∧
@@ -228,6 +241,10 @@ def BK.ok (ne0 : Nat) (D : Nat → Prop) (phs : List Ph) : BK → Prop
       (∃ ph, phs[base + j]? = some ph ∧ ph.prog.isDone = false) ∧
       (∀ e ∈ ids, e ≤ ne0 ∧ D e) ∧
       (∀ i, j < i → i < ids.length → phs[base + i]? = some (.fin .ok))
+  | .unV base us j => j < us.length ∧ ∀ i, i < us.length → phs[base + i]? = some (.fin .ok)
+  | .unL base us j cnt => j < us.length ∧
+      (∃ ph, phs[base + j]? = some ph ∧ ph.prog.isDone = false) ∧
+      (∀ i, j < i → i < us.length → phs[base + i]? = some (.fin .ok))
 
 def inBlk (b : Option BK) (x : Nat) : Prop := ∃ k, b = some k ∧ k.base ≤ x ∧ x < k.base + k.n
 
@@ -245,6 +262,10 @@ theorem BK.prog_congr {phs phs' : List Ph} (k : BK)
     simp only [BK.prog, slotProg]
     rw [h (base + j) (by simp [BK.base]) (by simp only [BK.base, BK.n]; have := hok.1; omega)]
   | deL base ids j del fl =>
+    simp only [BK.prog, slotProg]
+    rw [h (base + j) (by simp [BK.base]) (by simp only [BK.base, BK.n]; have := hok.1; omega)]
+  | unV base us j => rfl
+  | unL base us j cnt =>
     simp only [BK.prog, slotProg]
     rw [h (base + j) (by simp [BK.base]) (by simp only [BK.base, BK.n]; have := hok.1; omega)]
 
@@ -289,6 +310,16 @@ theorem BK.ok_congr {ne0 : Nat} {D : Nat → Prop} {phs phs' : List Ph} (k : BK)
     · rw [h (base + j) (by simp [BK.base]) (by simp only [BK.base, BK.n]; omega)]; exact h2
     · intro i hi1 hi2
       rw [h (base + i) (by simp [BK.base]) (by simp only [BK.base, BK.n]; omega)]; exact h5 i hi1 hi2
+  | unV base us j =>
+    obtain ⟨h1, h2⟩ := hok
+    refine ⟨h1, fun i hi => ?_⟩
+    rw [h (base + i) (by simp [BK.base]) (by simp only [BK.base, BK.n]; omega)]; exact h2 i hi
+  | unL base us j cnt =>
+    obtain ⟨h1, ⟨ph, h2, h3⟩, h5⟩ := hok
+    refine ⟨h1, ⟨ph, ?_, h3⟩, ?_⟩
+    · rw [h (base + j) (by simp [BK.base]) (by simp only [BK.base, BK.n]; omega)]; exact h2
+    · intro i hi1 hi2
+      rw [h (base + i) (by simp [BK.base]) (by simp only [BK.base, BK.n]; omega)]; exact h5 i hi1 hi2
 
 theorem BK.slot_in {ne0 : Nat} {D : Nat → Prop} {phs : List Ph} {k : BK} {x : Nat}
     (hok : k.ok ne0 D phs) (hs : k.slot = some x) : k.base ≤ x ∧ x < k.base + k.n := by
@@ -298,6 +329,8 @@ theorem BK.slot_in {ne0 : Nat} {D : Nat → Prop} {phs : List Ph} {k : BK} {x : 
   | ceL base items start j => simp [BK.slot] at hs; subst hs; have := hok.1; simp [BK.base, BK.n]; omega
   | cnL base items start j => simp [BK.slot] at hs; subst hs; have := hok.1; simp [BK.base, BK.n]; omega
   | deL base ids j del fl => simp [BK.slot] at hs; subst hs; have := hok.1; simp [BK.base, BK.n]; omega
+  | unV base us j => simp [BK.slot] at hs
+  | unL base us j cnt => simp [BK.slot] at hs; subst hs; have := hok.1; simp [BK.base, BK.n]; omega
 
 /-- the invariant of the whole system: `J` over the phases of the threads and of the items of the
     batch calls in flight; `bs[i]` says where thread `i` is inside a batch call (`none`: not in one, its
@@ -448,6 +481,19 @@ theorem bdeLoop_drop (ids : List Nat) (j e : Nat) (del : List Nat) (fl : List (N
     bdeLoop (ids.drop j) j del fl = (Ph.deA e).prog.bind (bdeK ids j e del fl) := by
   rw [drop_cons_of_get he]; rfl
 
+theorem bunLoop_drop (us : List (Nat × Option Nat × Nat)) (j cnt : Nat) (u : Nat × Option Nat × Nat) (he : us[j]? = some u) :
+    bunLoop (us.drop j) cnt = (Ph.unA u.1 u.2.1 u.2.2).prog.bind (bunK us j cnt) := by
+  rw [drop_cons_of_get he]; obtain ⟨id, lab, v⟩ := u; rfl
+
+theorem bunValidate_drop (us : List (Nat × Option Nat × Nat)) (j : Nat) (u : Nat × Option Nat × Nat) (c : Prog)
+    (he : us[j]? = some u) :
+    bunValidate (us.drop j) j c =
+      .get (.node u.1) fun v =>
+        match v with
+        | none => .done (.batchInvalid j u.1)
+        | some _ => bunValidate (us.drop (j + 1)) (j + 1) c := by
+  rw [drop_cons_of_get he]; obtain ⟨id, lab, v⟩ := u; rfl
+
 theorem bceValidate_drop (items : List EdgeIn) (j : Nat) (e : EdgeIn) (c : Prog) (he : items[j]? = some e) :
     bceValidate (items.drop j) j c =
       .ex (.node e.a) fun oka =>
@@ -532,6 +578,12 @@ theorem drive_ok (hG : G ne0 D bs phs s held) (hi : i < bs.length) {k : BK} (hb 
       simp [BK.slot] at hs; subst hs
       obtain ⟨h1, _, h3, h4⟩ := hok
       refine ⟨h1, ⟨ph', set_eq ph' hu, hnd⟩, h3, fun x hx1 hx2 => ?_⟩
+      rw [set_ne ph' (by omega)]; exact h4 x hx1 hx2
+    | unV base us j => simp [BK.slot] at hs
+    | unL base us j cnt =>
+      simp [BK.slot] at hs; subst hs
+      obtain ⟨h1, _, h4⟩ := hok
+      refine ⟨h1, ⟨ph', set_eq ph' hu, hnd⟩, fun x hx1 hx2 => ?_⟩
       rw [set_ne ph' (by omega)]; exact h4 x hx1 hx2
   · intro x ph2 hx hp2 hor
     by_cases hxu : x = u
@@ -689,12 +741,13 @@ theorem enter_ok (hG : G ne0 D bs phs s held) (hi : i < bs.length) (hb : bs[i]? 
       · exact Or.inr ⟨k', rfl, h⟩
 
 /-- the operations of the extended theorem: the single operations of `quiescent_wf_partial`,
-    `batch_create_nodes` and `batch_create_edges` with any arguments, `batch_delete_edges` of ids that
-    may be deleted -/
+    `batch_create_nodes`, `batch_create_edges` and `batch_update_nodes` with any arguments,
+    `batch_delete_edges` of ids that may be deleted -/
 def Op.admB (ne0 : Nat) (D : Nat → Prop) : Op → Prop
   | .batchCreateEdges _ => True
   | .batchCreateNodes _ => True
   | .batchDeleteEdges ids => ∀ e ∈ ids, e ≤ ne0 ∧ D e
+  | .batchUpdateNodes _ => True
   | op => op.adm2 ne0 D
 
 theorem quiet_fin (r : Res) : (Ph.fin r).quiet := fun x K h => by simp [Exc] at h
@@ -734,7 +787,21 @@ theorem enter_op (hG : G ne0 D bs phs s held) (hi : i < bs.length) (hb : bs[i]? 
   | addLabel n l => exact single (by simpa [Op.admB] using hadm)
   | removeLabel n l => exact single (by simpa [Op.admB] using hadm)
   | batchDeleteNodes ids => simp [Op.admB, Op.adm2] at hadm
-  | batchUpdateNodes us => simp [Op.admB, Op.adm2] at hadm
+  | batchUpdateNodes us =>
+    by_cases hne : us = []
+    · subst hne; exact finish _
+    · have hpos : 0 < us.length := by cases us <;> simp_all
+      have hprog : (Op.batchUpdateNodes us).prog = (BK.unV phs.length us 0).prog
+          (phs ++ List.replicate us.length (.fin .ok)) := by
+        simp [Op.prog, batchUpdateNodesProg, BK.prog]
+      rw [hprog]
+      refine enter_ok hG hi hb hp _ rfl _ (by simp [BK.n]) (fun x hx => append_old hx) s held
+        (hG.j.append_fin _) ?_ ?_
+      · exact ⟨hpos, fun x hx => get_replicate_fin (by omega) (by omega)⟩
+      · intro x ph2 hx hp2
+        rcases get_append_fin hp2 with h | rfl
+        · rw [List.getElem?_eq_none hx] at h; cases h
+        · exact Or.inl (quiet_fin _)
   | batchCreateEdges items =>
     by_cases hne : items = []
     · subst hne; exact finish _
@@ -801,6 +868,7 @@ def BK.kont : BK → Res → Prog
   | .ceL _ items start j => bceK start items j
   | .cnL _ items start j => bcnK start items j
   | .deL _ ids j del fl => bdeK ids j (ids.getD j 0) del fl
+  | .unL _ us j cnt => bunK us j cnt
   | _ => fun _ => .done .ok
 
 theorem BK.prog_slot {k : BK} {u : Nat} (hs : k.slot = some u) (phs2 : List Ph) :
@@ -926,6 +994,42 @@ theorem advance (hG : G ne0 D bs phs s held) (hi : i < bs.length) {k : BK} (hb :
             rw [set_ne _ hxn] at hp2
             exact hqs x ph2 hx1 hx2 hp2 (by omega)
       · have : ids.drop (j + 1) = [] := List.drop_eq_nil_of_le (by omega)
+        rw [this]
+        exact hfin _
+    | unV base us j => simp [BK.slot] at hs
+    | unL base us j cnt =>
+      simp [BK.slot] at hs; subst hs
+      obtain ⟨h1, _, h4⟩ := hok
+      obtain ⟨cnt', hk⟩ : ∃ cnt', bunK us j cnt r = bunLoop (us.drop (j + 1)) cnt' := by
+        cases r <;> exact ⟨_, rfl⟩
+      simp only [Ph.prog, Prog.bind, BK.kont]
+      rw [hk]
+      by_cases hj : j + 1 < us.length
+      · have he : us[j + 1]? = some us[j + 1] := List.getElem?_eq_getElem hj
+        have hslot : (phs.set (base + j) (Ph.fin r))[base + (j + 1)]? = some (.fin .ok) := by
+          rw [set_ne _ (by omega)]; exact h4 (j + 1) (by omega) hj
+        have hJ2 := hJ.step_same hslot (.unA us[j + 1].1 us[j + 1].2.1 us[j + 1].2.2) s'.ne held' (Nat.le_refl _)
+          (fun x K h => by simp [Exc] at h) trivial
+          (fun _ _ _ _ _ _ h => h) (fun k hk => by simp [Ph.holds] at hk) (fun x hx => by simp [Ph.creates] at hx)
+        have hnext : ((phs.set (base + j) (Ph.fin r)).set (base + (j + 1)) (Ph.unA us[j + 1].1 us[j + 1].2.1 us[j + 1].2.2))[base + (j + 1)]? =
+            some (.unA us[j + 1].1 us[j + 1].2.1 us[j + 1].2.2) := set_eq _ hslot
+        have hp : bunLoop (us.drop (j + 1)) cnt' =
+            (BK.unL base us (j + 1) cnt').prog ((phs.set (base + j) (Ph.fin r)).set (base + (j + 1)) (Ph.unA us[j + 1].1 us[j + 1].2.1 us[j + 1].2.2)) := by
+          simp only [BK.prog, slotProg, hnext]
+          exact bunLoop_drop us (j + 1) _ _ he
+        rw [hp]
+        refine block_ok hG hi hb (BK.unL base us (j + 1) cnt') rfl rfl _ (by simp) ?_ s' held' (by simpa using hJ2) ⟨hj, ⟨_, hnext, rfl⟩, ?_⟩ ?_
+        · intro x hx
+          rw [set_ne _ (by simp only [BK.base, BK.n] at hx; omega), set_ne _ (by simp only [BK.base, BK.n] at hx; omega)]
+        · intro x hx1 hx2
+          rw [set_ne _ (by omega), set_ne _ (by omega)]; exact h4 x (by omega) hx2
+        · intro x ph2 hx1 hx2 hp2
+          by_cases hxn : x = base + (j + 1)
+          · right; simp [BK.slot]; omega
+          · left
+            rw [set_ne _ hxn] at hp2
+            exact hqs x ph2 hx1 hx2 hp2 (by omega)
+      · have : us.drop (j + 1) = [] := List.drop_eq_nil_of_le (by omega)
         rw [this]
         exact hfin _
 
@@ -1099,6 +1203,58 @@ theorem cnA_alloc (hG : G ne0 D bs phs s held) (hi : i < bs.length) {base : Nat}
     rw [hx, hr1 (x - base) _ hlt (List.getElem?_eq_getElem hlt)] at hp2
     cases hp2; exact quiet_cnP1 _ _ _
 
+/-- a store call of the validation phase of `batch_update_nodes` -/
+theorem unV_store (hG : G ne0 D bs phs s held) (hi : i < bs.length) {base : Nat} {us : List (Nat × Option Nat × Nat)} {j : Nat}
+    (hb : bs[i]? = some (some (.unV base us j))) :
+    StepOK ne0 D bs phs i (some (.unV base us j)) (((BK.unV base us j).prog phs).step s).1
+      (((BK.unV base us j).prog phs).step s).2 held := by
+  obtain ⟨hok, ⟨r0, hr0⟩, hT, hE⟩ := hG.ok i _ hb
+  obtain ⟨o1, o2⟩ := hok
+  have he : us[j]? = some us[j] := List.getElem?_eq_getElem o1
+  have hqall : ∀ x ph2, base ≤ x → x < base + us.length → phs[x]? = some ph2 → ph2.quiet := by
+    intro x ph2 h1 h2 hp2
+    have hx : x = base + (x - base) := by omega
+    rw [hx, o2 (x - base) (by omega)] at hp2
+    cases hp2; exact quiet_fin _
+  simp only [BK.prog, bunValidate_drop us j _ _ he, Prog.step]
+  cases hv : s.kv (.node us[j].1) with
+  | none =>
+    exact finish_ok hG hi hb phs rfl (fun _ _ => rfl)
+      (fun x ph2 h1 h2 hp2 => hqall x ph2 h1 (by simpa [BK.n, BK.base] using h2) hp2) s held hG.j _
+  | some val =>
+    simp only
+    by_cases hj : j + 1 < us.length
+    · have hp : bunValidate (us.drop (j + 1)) (j + 1) (bunLoop us 0) = (BK.unV base us (j + 1)).prog phs := rfl
+      rw [hp]
+      exact block_ok hG hi hb (BK.unV base us (j + 1)) rfl rfl phs rfl (fun _ _ => rfl) s held hG.j ⟨hj, o2⟩
+        (fun x ph2 h1 h2 hp2 => Or.inl (hqall x ph2 h1 (by simpa [BK.n, BK.base] using h2) hp2))
+    · have hdrop : us.drop (j + 1) = [] := List.drop_eq_nil_of_le (by omega)
+      have hpos : 0 < us.length := by omega
+      have he0 : us[0]? = some us[0] := List.getElem?_eq_getElem hpos
+      have hslot : phs[base + 0]? = some (.fin .ok) := o2 0 hpos
+      have hJ2 := hG.j.step_same hslot (.unA us[0].1 us[0].2.1 us[0].2.2) s.ne held (Nat.le_refl _)
+        (fun x K h => by simp [Exc] at h) trivial
+        (fun _ _ _ _ _ _ h => h) (fun k hk => by simp [Ph.holds] at hk) (fun x hx => by simp [Ph.creates] at hx)
+      have hnext : (phs.set (base + 0) (Ph.unA us[0].1 us[0].2.1 us[0].2.2))[base + 0]? = some (.unA us[0].1 us[0].2.1 us[0].2.2) :=
+        set_eq _ hslot
+      have hp : bunValidate (us.drop (j + 1)) (j + 1) (bunLoop us 0) =
+          (BK.unL base us 0 0).prog (phs.set (base + 0) (Ph.unA us[0].1 us[0].2.1 us[0].2.2)) := by
+        rw [hdrop]
+        simp only [bunValidate, BK.prog, slotProg, hnext]
+        exact bunLoop_drop us 0 0 _ he0
+      rw [hp]
+      refine block_ok hG hi hb (BK.unL base us 0 0) rfl rfl _ (by simp)
+        (fun x hx => set_ne _ (by simp only [BK.base, BK.n] at hx; omega)) s held (by simpa using hJ2)
+        ⟨hpos, ⟨_, hnext, rfl⟩, ?_⟩ ?_
+      · intro x hx1 hx2
+        rw [set_ne _ (by omega)]; exact o2 x hx2
+      · intro x ph2 hx1 hx2 hp2
+        by_cases hx0 : x = base + 0
+        · right; simp [BK.slot]; omega
+        · left
+          rw [set_ne _ hx0] at hp2
+          exact hqall x ph2 hx1 (by simpa [BK.n, BK.base] using hx2) hp2
+
 /-- every store call of thread `i` keeps the invariant -/
 theorem store_presB (hG : G ne0 D bs phs s held) (hi : i < bs.length) {b : Option BK} (hb : bs[i]? = some b)
     {p : Prog} (hcur : CurOK phs i b p) (hlab : p.label.isSome = true) :
@@ -1128,6 +1284,8 @@ theorem store_presB (hG : G ne0 D bs phs s held) (hi : i < bs.length) {b : Optio
       | ceL base items start j => simp [BK.slot] at hs
       | cnL base items start j => simp [BK.slot] at hs
       | deL base ids j del fl => simp [BK.slot] at hs
+      | unV base us j => exact unV_store hG hi hb
+      | unL base us j cnt => simp [BK.slot] at hs
 
 /-- every silent step of thread `i` keeps the invariant -/
 theorem silent_presB (hG : G ne0 D bs phs s held) (hi : i < bs.length) {b : Option BK} (hb : bs[i]? = some b)
@@ -1191,6 +1349,13 @@ theorem silent_presB (hG : G ne0 D bs phs s held) (hi : i < bs.length) {b : Opti
       | ceL base items start j => simp [BK.slot] at hs
       | cnL base items start j => simp [BK.slot] at hs
       | deL base ids j del fl => simp [BK.slot] at hs
+      | unV base us j =>
+        have hj := hok.1
+        have he : us[j]? = some us[j] := List.getElem?_eq_getElem hj
+        simp only [BK.prog] at h
+        rw [bunValidate_drop us j _ _ he] at h
+        simp [Cfg.silent] at h
+      | unL base us j cnt => simp [BK.slot] at hs
 
 theorem setB_self {bs : List (Option BK)} {i : Nat} {b : Option BK} (hb : bs[i]? = some b) : bs.set i b = bs := by
   apply List.ext_getElem?
@@ -1417,6 +1582,15 @@ theorem BK.prog_not_done {ne0 : Nat} {D : Nat → Prop} {phs : List Ph} {k : BK}
   | deL base ids j del fl =>
     obtain ⟨_, ⟨ph, h2, h3⟩, _⟩ := hok
     simp only [BK.prog, slotProg, h2]; exact bind_isDone _ _ h3
+  | unV base us j =>
+    have hj := hok.1
+    have he : us[j]? = some us[j] := List.getElem?_eq_getElem hj
+    simp only [BK.prog]
+    rw [bunValidate_drop us j _ _ he]
+    rfl
+  | unL base us j cnt =>
+    obtain ⟨_, ⟨ph, h2, h3⟩, _⟩ := hok
+    simp only [BK.prog, slotProg, h2]; exact bind_isDone _ _ h3
 
 /-- every interleaving of admissible operations, batch calls included, ends in a well-formed store
     once all threads have finished -/
@@ -1493,7 +1667,7 @@ def DelSet (programs : List (List Op)) (e : Nat) : Prop :=
   (∃ ops ∈ programs, ∃ ids, Op.batchDeleteEdges ids ∈ ops ∧ e ∈ ids)
 
 /-- the operations `quiescent_wf_with_batch_calls_partial` admits, as a condition on the programs:
-    what `Admissible` admits, `batch_create_nodes` and `batch_create_edges` with ANY items,
+    what `Admissible` admits, `batch_create_nodes`, `batch_create_edges` and `batch_update_nodes` with ANY items,
     `batch_delete_edges` of ids handed out before the phase; no edge both updated and deleted (by
     `delete_edge` or by a `batch_delete_edges`) -/
 def AdmissibleB (s0 : St) (programs : List (List Op)) : Op → Prop
@@ -1504,6 +1678,7 @@ def AdmissibleB (s0 : St) (programs : List (List Op)) : Op → Prop
   | .removeLabel .. => True
   | .batchCreateEdges _ => True
   | .batchCreateNodes _ => True
+  | .batchUpdateNodes _ => True
   | .deleteEdge e => e ≤ s0.ne
   | .batchDeleteEdges ids => ∀ e ∈ ids, e ≤ s0.ne
   | .updateEdge e _ => e ≤ s0.ne ∧ ¬ DelSet programs e
@@ -1527,6 +1702,6 @@ theorem quiescentWF_of_admissibleB (s0 : St) (h : Inv s0) (programs : List (List
   | updateEdge e v => exact ⟨ha.1, ha.2⟩
   | deleteNode n hint => exact ha.elim
   | batchDeleteNodes ids => exact ha.elim
-  | batchUpdateNodes us => exact ha.elim
+  | batchUpdateNodes us => trivial
 
 end Neumann.Graph
